@@ -435,7 +435,7 @@ PROP = Property(
           "distinct = shape set x size class."),
     strategy=strategy,
     run_case=run_any,
-    budgets={"quick": 4000, "thorough": 60000},
+    budgets={"quick": 10000, "thorough": 60000},
     extra_tiers=[("enum", enum_tier)],
     assumptions=[
         "for the lowest listed PID psutil defines 'root': parent() None is accepted there",
